@@ -298,6 +298,8 @@ func checkC13(c *Ctx) {
 	checkAccumulation(c, pk)
 	checkTwinShortcuts(c, "C13.R4.twin-shortcuts", r)
 	checkBothPresent(c, "C13.R4.both-present", r)
+	checkDeprecatedDowngrade(c, "C13.R1.deprecated-own-flag", pk)
+	checkMediaCoverage(c, "C13.R4.media-coverage", pk)
 	// an ignore entry must only swallow the difference it was written from (otherwise a later, different
 	// narrowing at the same place is filtered out of the report and of the exit status)
 	checkMatchFields(c, "C13.R6.match-fields", pk)
@@ -966,5 +968,111 @@ func checkBothPresent(c *Ctx, rule string, r *goan.Rel) {
 		}
 		c.Check(ok, rule, fmt.Sprintf("diff.%s › %s compared only when present on both sides", s.FnName, strings.Join(attr, ",")), c.posOf(pk, s.Pos), "a sibling emission covers the one-sided cases",
 			fmt.Sprintf("%s is emitted for a difference of %s only when it is present on both sides, and nothing in %s is emitted when it is present on one side only: an attribute that appears, disappears or replaces its default goes unreported", code, strings.Join(attr, ","), s.FnName))
+	}
+}
+
+
+// checkDeprecatedDowngrade: deleting an endpoint is downgraded to a non-breaking change when the
+// endpoint was deprecated — which is a fact about that operation, read from its own Deprecated
+// flag, never from a sibling operation of the same path item.
+func checkDeprecatedDowngrade(c *Ctx, rule string, pk *packages.Package) {
+	c.Rule(rule, "the condition that selects DeletedDeprecatedEndpoint reads the Deprecated flag of the deleted operation only", 1)
+	fd := load.FuncDecl(pk, "SpecAnalyser.findDeletedEndpoints")
+	if fd == nil {
+		c.Anchor(rule, "diff.SpecAnalyser.findDeletedEndpoints", "not found")
+		return
+	}
+	n := 0
+	ast.Inspect(fd.Body, func(nd ast.Node) bool {
+		ifs, ok := nd.(*ast.IfStmt)
+		if !ok {
+			return true
+		}
+		selects := false
+		ast.Inspect(ifs.Body, func(m ast.Node) bool {
+			if id, ok := m.(*ast.Ident); ok && id.Name == "DeletedDeprecatedEndpoint" {
+				selects = true
+			}
+			return true
+		})
+		if !selects {
+			return true
+		}
+		n++
+		var foreign []string
+		own := 0
+		ast.Inspect(ifs.Cond, func(m ast.Node) bool {
+			se, ok := m.(*ast.SelectorExpr)
+			if !ok || se.Sel.Name != "Deprecated" {
+				return true
+			}
+			if inner, ok := ast.Unparen(se.X).(*ast.SelectorExpr); ok && inner.Sel.Name == "Operation" {
+				own++
+			} else {
+				foreign = append(foreign, goan.ExprString(se))
+			}
+			return true
+		})
+		c.Check(own >= 1 && len(foreign) == 0, rule, "diff.SpecAnalyser.findDeletedEndpoints › deprecated means this operation was deprecated", c.posOf(pk, ifs.Pos()), "reads <op>.Operation.Deprecated only",
+			fmt.Sprintf("the downgrade to DeletedDeprecatedEndpoint also reads %v: deleting a live operation is reported as non-breaking because another operation of the path is deprecated", foreign))
+		return true
+	})
+	if n == 0 {
+		c.Unk(rule, "diff.SpecAnalyser.findDeletedEndpoints › selection of DeletedDeprecatedEndpoint", c.posOf(pk, fd.Pos()), "no condition selecting DeletedDeprecatedEndpoint found")
+	}
+}
+
+
+// checkMediaCoverage: "a consumed media type is removed" can happen in the document's list and in an
+// operation's own list; both must be handed to DiffsTo.
+func checkMediaCoverage(c *Ctx, rule string, pk *packages.Package) {
+	c.Rule(rule, "the functions that diff string lists read the consumes and produces lists of the document and of the operations", 4)
+	info := pk.TypesInfo
+	owners := map[string]bool{}
+	for _, fd := range load.AllFuncs(pk) {
+		fd := fd
+		usesDiffsTo := false
+		ast.Inspect(fd.Body, func(n ast.Node) bool {
+			if call, ok := n.(*ast.CallExpr); ok {
+				if fn := goan.Callee(info, call); fn != nil && fn.Name() == "DiffsTo" {
+					usesDiffsTo = true
+				}
+			}
+			return true
+		})
+		if !usesDiffsTo {
+			continue
+		}
+		ast.Inspect(fd.Body, func(n ast.Node) bool {
+			se, ok := n.(*ast.SelectorExpr)
+			if !ok || (se.Sel.Name != "Consumes" && se.Sel.Name != "Produces") {
+				return true
+			}
+			if sel := info.Selections[se]; sel != nil {
+				if v, ok := sel.Obj().(*types.Var); ok && v.IsField() {
+					// the struct that declares the field: SwaggerProps or OperationProps
+					owner := ""
+					for _, tn := range []string{"SwaggerProps", "OperationProps"} {
+						if o := v.Pkg().Scope().Lookup(tn); o != nil {
+							if st, ok := o.Type().Underlying().(*types.Struct); ok {
+								for i := 0; i < st.NumFields(); i++ {
+									if st.Field(i) == v {
+										owner = tn
+									}
+								}
+							}
+						}
+					}
+					if owner != "" {
+						owners[owner+"."+se.Sel.Name] = true
+					}
+				}
+			}
+			return true
+		})
+	}
+	for _, want := range []string{"SwaggerProps.Consumes", "SwaggerProps.Produces", "OperationProps.Consumes", "OperationProps.Produces"} {
+		c.Check(owners[want], rule, "diff › "+want+" is diffed", "", "read in a function that calls DiffsTo",
+			want+" is never handed to the list comparison: a media type removed from that list is not reported")
 	}
 }
